@@ -21,6 +21,8 @@ structure Sys (A S O G W : Type) where
   invisible : W → Bool                   -- the write changes nothing a reader sees
   exec : A → S → W → S × Option Err
   obs : S → O
+  /-- a guard that passes establishes these as well (`da in block.data_arrays` ⇒ `da` lives in this file) -/
+  implies : G → List G := fun _ => []
 
 inductive Step (G W : Type) where
   | guard (g : G)
@@ -45,17 +47,18 @@ before it (`seen`) -/
 def safeFrom [DecidableEq G] (sys : Sys A S O G W) (seen : List G) (dirty : Bool) : List (Step G W) → Bool
   | [] => true
   | .guard g :: r =>
-    if dirty then seen.contains g && safeFrom sys seen dirty r else safeFrom sys (g :: seen) dirty r
+    if dirty then seen.contains g && safeFrom sys seen dirty r else safeFrom sys (g :: (sys.implies g ++ seen)) dirty r
   | .write w :: r =>
     ((sys.needs w).all seen.contains) && safeFrom sys seen (dirty || !sys.invisible w) r
 
 def safe [DecidableEq G] (sys : Sys A S O G W) (steps : List (Step G W)) : Bool := safeFrom sys [] false steps
 
 /-- what has to be shown of a system: a write whose needs are established does not refuse; a refusing write and
-an invisible write leave what readers see -/
+an invisible write leave what readers see; what a guard is said to establish holds whenever it passes -/
 structure Sys.Sound (sys : Sys A S O G W) : Prop where
   exec_ok : ∀ a s w, (∀ g ∈ sys.needs w, sys.check a g = none) → (sys.exec a s w).2 = none
   invisible_obs : ∀ a s w, sys.invisible w = true → sys.obs (sys.exec a s w).1 = sys.obs s
+  implies_ok : ∀ a g g', sys.check a g = none → g' ∈ sys.implies g → sys.check a g' = none
 
 end Nix.Guarded
 
